@@ -53,14 +53,14 @@ Framing(v) == IF v = 0 THEN "fixed" ELSE "prefixed"
 ---------------------------------------------------------------------------
 (* party state *)
 
-NewParty(init, pattern, minV, maxV, static, eph, pw, expectRs, payload) ==
+NewParty(init, pattern, minV, maxV, static, priv, eph, pw, expectRs, payload) ==
     LET pre == IF pattern = KK
                THEN (IF init THEN <<static, expectRs>> ELSE <<expectRs, static>>)
                ELSE <<>> IN
     [init |-> init, pattern |-> pattern,
      minV |-> IF pattern = KK /\ minV < 2 THEN 2 ELSE minV, maxV |-> maxV,
      ver |-> IF init THEN (IF pattern = KK /\ minV < 2 THEN 2 ELSE minV) ELSE maxV,
-     s |-> static, e |-> eph, pw |-> pw,
+     s |-> static, sk |-> priv, e |-> eph, pw |-> pw,
      rs |-> expectRs, re |-> "none",
      h |-> <<"proto:" \o pattern, "prologue">> \o pre,
      ck |-> <<>>, n |-> 0,
@@ -81,11 +81,14 @@ CanOpen(p, c) == ~IsJunk(c) /\ DOMAIN c = {"ck", "n", "h", "pt"}
 \* DecryptAndHash on success
 Dec(p, c) == MixHash([p EXCEPT !.n = @ + 1], c)
 
+\* p.s names the static key the party presents (its public half enters the
+\* transcript), p.sk the private key it actually computes with: the same for
+\* an honest party, different for one that claims somebody else's public key
 DhTerm(p, tok) ==
     IF tok = "ee" THEN Dh(p.re, p.e)
-    ELSE IF tok = "ss" THEN Dh(p.rs, p.s)
-    ELSE IF tok = "es" THEN (IF p.init THEN Dh(p.rs, p.e) ELSE Dh(p.re, p.s))
-    ELSE (IF p.init THEN Dh(p.re, p.s) ELSE Dh(p.rs, p.e))     \* "se"
+    ELSE IF tok = "ss" THEN Dh(p.rs, p.sk)
+    ELSE IF tok = "es" THEN (IF p.init THEN Dh(p.rs, p.e) ELSE Dh(p.re, p.sk))
+    ELSE (IF p.init THEN Dh(p.re, p.sk) ELSE Dh(p.rs, p.e))     \* "se"
 
 ---------------------------------------------------------------------------
 (* writing an act: the result is <<p', fields>> *)
@@ -194,10 +197,13 @@ Tamper(w, verSub, corruptField) ==
 \*     verSub (seq of 3), corruptAct, corruptField]
 ConfigOK(c) == c.pattern = XX \/ (c.cMax >= 2 /\ c.sMax >= 2)
 
-I0(c) == NewParty(TRUE, c.pattern, c.cMin, c.cMax, "sI", "eI", "pw1",
+\* imp = 1: the initiator presents the paired client's public key without
+\* holding its private key
+Imp(c) == "imp" \in DOMAIN c /\ c.imp = 1
+I0(c) == NewParty(TRUE, c.pattern, c.cMin, c.cMax, "sI", IF Imp(c) THEN "sZ" ELSE "sI", "eI", "pw1",
                   IF c.pattern = KK THEN c.iExpect ELSE "none",
                   [id |-> "none", big |-> FALSE])
-R0(c) == NewParty(FALSE, c.pattern, c.sMin, c.sMax, "sR", "eR",
+R0(c) == NewParty(FALSE, c.pattern, c.sMin, c.sMax, "sR", "sR", "eR",
                   IF c.pwEq THEN "pw1" ELSE "pw2",
                   IF c.pattern = KK THEN c.rExpect ELSE "none", c.payload)
 
@@ -247,7 +253,7 @@ Outcome(c) ==
 (* Properties *)
 
 Authorised(c) == IF c.pattern = XX THEN c.pwEq
-                 ELSE c.iExpect = "sR" /\ c.rExpect = "sI"
+                 ELSE c.iExpect = "sR" /\ c.rExpect = "sI" /\ ~Imp(c)
 
 \* C03: a handshake completes (on either side) only between authorised parties
 CompleteOnlyIfAuthorised(c) ==
